@@ -291,11 +291,13 @@ def register_timing_tasks(broker: ScriptedBroker, tr: Trace, sc: Dict[str, Any])
                 raise EXC[sp["out"]]()
             return ret_value(sp, i)
         finally:
-            if sp.get("cleanup"):
-                # asynchronous clean-up: after a cancellation (timeout) the body needs further loop iterations to finish
-                tr.add("cleanup", i)
-                await asyncio.sleep(sp["cleanup"])
-            tr.add("exit", i)
+            try:
+                if sp.get("cleanup"):
+                    # asynchronous clean-up: after a cancellation (timeout) the body needs further loop iterations to finish
+                    tr.add("cleanup", i)
+                    await asyncio.sleep(sp["cleanup"])
+            finally:
+                tr.add("exit", i)
 
     def stask(i: int) -> Any:
         sp = specs[i]
@@ -422,6 +424,18 @@ def run_worker(sc: Dict[str, Any], register: Optional[Callable[..., None]] = Non
 
 
 # ------------------------------------------------------------------ trace helpers
+
+
+def timeout_verdict(sp: Dict[str, Any]) -> str:
+    """'none' | 'ok' (finishes before the timeout) | 'tie' (finishes exactly at it: either outcome) | 'timeout'.
+    The asynchronous clean-up is part of the coroutine the worker waits for."""
+    to = sp.get("timeout")
+    if to is None or sp["kind"] != "async":
+        return "none"
+    total = NEVER if sp.get("out") == "never" else sp["dur"] + sp.get("cleanup", 0)
+    if abs(total - float(to)) < 1e-9:
+        return "tie"
+    return "timeout" if total > float(to) else "ok"
 
 
 def per_message(trace: List[List[Any]]) -> Dict[Any, List[Any]]:
